@@ -31,6 +31,11 @@ func (rt *runtime) toValueArray(arguments ...interface{}) []Value {
 }
 
 func stringToArrayIndex(name string) int64 {
+	// An array index is the canonical decimal form of a uint32 (ECMA 262 15.4):
+	// no sign and no leading zero, so "+1", "-0" and "01" are ordinary names.
+	if name == "" || name[0] < '0' || name[0] > '9' || (name[0] == '0' && len(name) > 1) {
+		return -1
+	}
 	index, err := strconv.ParseInt(name, 10, 64)
 	if err != nil {
 		return -1
